@@ -326,6 +326,8 @@ func (g *genCtx) nextEvent(family string) sut.Event {
 		}
 		if e.Act != "TotpConfirm" && g.chance(0.25) {
 			g.rcArgs(&e, o)
+		} else if e.Code >= 1 && g.chance(0.15) {
+			e.Junk = "space"
 		}
 		if e.Act == "TotpValidate" && g.chance(0.2) {
 			e.Redir = "redir"
